@@ -4,6 +4,14 @@ import json
 
 def replay(w):
     kind = w["kind"]
+    if kind == "rewrite":
+        import random
+
+        import check_rewrite as cr
+
+        ov, ref, log, src, fname, rname = cr.build(random.Random(0), w["lines"], set(), w["closure"], w["kwdefault"])
+        args = eval(w["args"])
+        return cr.outcome(ov, args, w.get("kwargs", {}), log, fname) != cr.outcome(ref, args, w.get("kwargs", {}), log, rname)
     from world import World
 
     wd = World(w["world"])
